@@ -137,8 +137,11 @@ let p_record (l : string list) : record = match l with
 (* cfg: max_items capacity max_records max_size truncate read_buf *)
 let p_cfg (l : string list) : config = match l with
   | [mi; cap; mr; ms; tr; _rb] ->
-    { c_max_items = n_of_string mi; c_capacity = n_of_string cap; c_max_records = n_of_string mr;
-      c_max_size = n_of_string ms; c_truncate = (tr = "1") }
+    (* "-": the field is left unset and the crate's documented default applies
+       (100 000 items, 1 GiB, 1 Mi records, 1 GiB, truncation enabled) *)
+    let d s v = if s = "-" then n_of_string v else n_of_string s in
+    { c_max_items = d mi "100000"; c_capacity = d cap "1073741824"; c_max_records = d mr "1048576";
+      c_max_size = d ms "1073741824"; c_truncate = (tr = "1" || tr = "-") }
   | _ -> failwith ("bad cfg: " ^ String.concat " " l)
 
 let rec p_entries (l : string list) = match l with
